@@ -5,7 +5,8 @@
    number type (NumText), like NumOrder; everything else is proved. *)
 From JM Require Import Model.Base Model.Num Model.Utf8 Model.Value Model.JsonText.
 From JM Require Import Model.Lexer Model.Parser Model.Interp Model.Api.
-From JM Require Import Proofs.ValueFacts Proofs.SortFacts Proofs.Utf8Facts Proofs.JsonString Proofs.LexSpell.
+From JM Require Import Model.Functions Spec.Semantics.
+From JM Require Import Proofs.ValueFacts Proofs.SortFacts Proofs.Utf8Facts Proofs.JsonString Proofs.LexSpell Proofs.FunSpec.
 From Coq Require Import ZifyBool ZifyN ZifyNat.
 
 Section WithNum.
@@ -379,6 +380,32 @@ Theorem literal_of_value (ord : obj -> obj) v t d :
   search ord (96%N :: lit_escape t ++ [96%N]) d = Ok v.
 Proof.
   intros Hm Hj Hd Hp. rewrite (json_literal_denotes ord t d Hp). rewrite (unmarshal_marshal v t Hm Hj Hd). reflexivity.
+Qed.
+
+
+(* to_string of a JSON value that is not a string: a string that decodes back to the argument *)
+Theorem to_string_round_trip (ord : obj -> obj) v :
+  jok v -> vdepth v <= max_nesting_depth -> (forall s, v <> VStr s) ->
+  exists t, spec_call ord (str "to_string") [SVal v] = Ok (VStr t) /\ json_unmarshal t = Some v.
+Proof.
+  intros Hj Hd Hns. rewrite (to_string_equation ord v).
+  assert (Hm : exists t, json_marshal v = Some t).
+  { clear Hd Hns. revert v Hj. fix IH 1. intros [ | [|] | n | s | l | m | e] Hj; try (eexists; reflexivity).
+    - cbn in Hj. cbn [json_marshal]. rewrite Hj. eexists; reflexivity.
+    - pose proof (jok_arr _ Hj) as Hl. cbn [json_marshal].
+      assert (G : exists parts, (fix go (l : list value) : option (list bytes) :=
+                    match l with [] => Some [] | x :: r => match json_marshal x, go r with Some a, Some b => Some (a :: b) | _, _ => None end end) l = Some parts).
+      { clear Hj. induction l as [|x l IHl]; [eexists; reflexivity|]. inversion Hl as [|? ? Hx Hl']; subst.
+        destruct (IH x Hx) as [a Ea]. destruct (IHl Hl') as [b Eb]. rewrite Ea, Eb. eexists; reflexivity. }
+      destruct G as [parts ->]. eexists; reflexivity.
+    - destruct (jok_obj _ Hj) as [Hm _]. cbn [json_marshal].
+      assert (G : exists parts, (fix go (m : obj) : option (list bytes) :=
+                    match m with [] => Some [] | (k, x) :: r => match json_marshal x, go r with Some a, Some b => Some ((marshal_string k ++ 58%N :: a) :: b) | _, _ => None end end) m = Some parts).
+      { clear Hj. induction m as [|[k x] m IHm]; [eexists; reflexivity|]. inversion Hm as [|? ? [_ Hx] Hm']; subst. cbn [snd] in Hx.
+        destruct (IH x Hx) as [a Ea]. destruct (IHm Hm') as [b Eb]. rewrite Ea, Eb. eexists; reflexivity. }
+      destruct G as [parts ->]. eexists; reflexivity. }
+  destruct Hm as [t Ht]. exists t. destruct v; try (rewrite Ht; split; [reflexivity | apply (unmarshal_marshal _ _ Ht Hj Hd)]).
+  exfalso. eapply Hns. reflexivity.
 Qed.
 
 End WithNum.
